@@ -15,6 +15,13 @@ start and exactly one end record ('endedAtTime' + 'errored'); no end record for 
 activity; the multiset of 'errored' flags equals the multiset of result flags seen by the hooks,
 and (when every activity is well-formed) the end record of the activity id the hook saw on the
 job has that job's flag.  Monitor activities ('@type' monitor, ALL flag) are not job activities.
+MAY class (statement silent): the records agree with what happened, but switching auditing on made
+a program from the succeeding part of the pool fail (its nodes never ran) — counted as
+`auditing_broke_the_program`, not a violation of record consistency.
+The combination cf worker + ALL + workflow-like program is known to spin forever; it runs in a
+child process under a watchdog (one case in quick, three in thorough) and a run that started the
+workflow job, emitted its start record and then never started a node is reported as a violation
+(mechanism resource-monitor-unpicklable); any other watchdog expiry is inconclusive.
 """
 from __future__ import annotations
 
@@ -255,7 +262,7 @@ def case_batch(case, wctx):
     for c in case["cases"]:
         try:
             if hazardous(c):
-                out.append(decide_isolated(c, wctx, 50 if wctx.tier == "quick" else 90))
+                out.append(decide_isolated(c, wctx, 40 if wctx.tier == "quick" else 90))
                 continue
             out.append(decide(c, wctx))
         except Exception as e:
@@ -280,7 +287,7 @@ def gen_cases(rng, n, cf_share):
 def run(ctx):
     quick = ctx.tier == "quick"
     rng = ctx.rng("gen")
-    cases = gen_cases(rng, 40 if quick else 800, 0.15 if quick else 0.25)
+    cases = gen_cases(rng, 40 if quick else 600, 0.15 if quick else 0.25)
     # the watchdog-guarded combination costs its full timeout: keep one (quick) / three (thorough) of them
     keep = 1 if quick else 3
     for c in cases:
@@ -298,7 +305,7 @@ def run(ctx):
                 "{debug, cf} x {once, resubmitted on the same cache}; non-trivial = at least 2 messages were written "
                 "and the hook trace saw at least one executed job; distinct = distinct generated case")
     res = ctx.pmap("vp.props.c36:case_batch", [{"cases": cases[i:i + per]} for i in range(0, len(cases), per)],
-                   nproc=10 if quick else 16, timeout=300 if quick else 1500)
+                   nproc=10 if quick else 16, timeout=900 if quick else 3300)
     ctx.record_all(res)
     ctx.assumptions = ["executed jobs are counted by pre/post_run_task hooks attached to every job of the program; "
                        "the activity id a job used is read from job.audit.aid in post_run_task (observation only)"]
